@@ -116,8 +116,8 @@ PLANS['C06'] = {
 
 PLANS['C01'] = {
     'level': 'model_checking', 'tv_spec': 'TV_API',
-    'run': api_runner({'quick': [('cert', 40, 3, 12), ('certbig', 10, 2, 4)],
-                       'thorough': [('cert', 400, 4, 16), ('certbig', 100, 3, 16), ('certscaled', 100, 3, 8)]}),
+    'run': api_runner({'quick': [('cert', 40, 3, 12), ('certbig', 10, 2, 4), ('scale', 8, 40, 4)],
+                       'thorough': [('cert', 400, 4, 16), ('certbig', 100, 3, 16), ('certscaled', 100, 3, 8), ('scale', 40, 40, 8)]}),
 }
 
 PLANS['C02'] = {
